@@ -46,6 +46,10 @@ struct Shared {
     reset: bool,
     /// `poll_shutdown` stays pending while set.
     stall_close: bool,
+    /// A `poll_shutdown` has been made pending by `stall_close` (at least once).
+    close_stall_seen: bool,
+    /// ... and the adapter has not been told yet.
+    close_stall_unreported: bool,
     read_waker: Option<Waker>,
     write_waker: Option<Waker>,
     close_waker: Option<Waker>,
@@ -129,6 +133,13 @@ impl PipeCtl {
         }
     }
 
+    /// Has a `poll_shutdown` been suspended by `set_stall_close` for the first time since the last
+    /// call? (`true` once per pipe.)
+    pub fn take_close_stalled(&self) -> bool {
+        let mut s = self.0.lock().unwrap();
+        std::mem::replace(&mut s.close_stall_unreported, false)
+    }
+
     /// Did the local end shut down its write side (or was it dropped)?
     pub fn local_closed(&self) -> bool {
         let s = self.0.lock().unwrap();
@@ -196,6 +207,10 @@ impl AsyncWrite for PipeEnd {
     fn poll_shutdown(self: Pin<&mut Self>, cx: &mut Context<'_>) -> Poll<io::Result<()>> {
         let mut s = self.0.lock().unwrap();
         if s.stall_close && IN_TASK.with(|c| c.get()) {
+            if !s.close_stall_seen {
+                s.close_stall_seen = true;
+                s.close_stall_unreported = true;
+            }
             s.close_waker = Some(cx.waker().clone());
             return Poll::Pending;
         }
